@@ -18,6 +18,14 @@ FEATS = ("emodulus", "time", "fl1_max_ctc", "area_ratio", "verif_plug_area",
 # which features an observation reads, and in which order, is free (a read
 # returns Fresh whatever was read before): chosen per history
 COMPUTED_AREA = [False]     # variant: area_um computed from area_cvx
+PAIR13 = [False]            # variant: channels 1 and 3 only; the abstract key
+                            # "ct21" is the coefficient "crosstalk fl13"
+
+
+def keymap(k):
+    if PAIR13[0] and k == "ct21":
+        return ("calculation", "crosstalk fl13", float)
+    return KEYMAP[k]
 
 
 def register_plugins():
@@ -85,7 +93,7 @@ def set_temp_features(ds, ver):
 def apply_state(ds, cfg, temp):
     import dclab
     for k, val in cfg.items():
-        sec, key, conv = KEYMAP[k]
+        sec, key, conv = keymap(k)
         if val == "absent":
             ds.config[sec].pop(key, None)
         else:
@@ -104,6 +112,8 @@ def new_ds(cfg, temp):
     data = base_data()
     if TWOCHAN[0]:
         data.pop("fl3_max")
+    if PAIR13[0]:
+        data.pop("fl2_max")
     if COMPUTED_AREA[0]:
         data.pop("area_um")
     ds = dclab.new_dataset(data)
@@ -111,7 +121,8 @@ def new_ds(cfg, temp):
     ds.config["setup"]["channel width"] = 20.0
     ds.config["setup"]["chip region"] = "channel"
     ds.config["calculation"]["crosstalk fl12"] = 0.02
-    ds.config["calculation"]["crosstalk fl13"] = 0.11
+    if not PAIR13[0]:
+        ds.config["calculation"]["crosstalk fl13"] = 0.11
     if not TWOCHAN[0]:
         ds.config["calculation"]["crosstalk fl32"] = 0.03
         ds.config["calculation"]["crosstalk fl23"] = 0.04
@@ -176,7 +187,8 @@ _FRESH = {}
 
 
 def fresh(cfg, temp, f):
-    key = (tuple(sorted(cfg.items())), temp, f, TWOCHAN[0], COMPUTED_AREA[0])
+    key = (tuple(sorted(cfg.items())), temp, f, TWOCHAN[0], COMPUTED_AREA[0],
+           PAIR13[0])
     if key not in _FRESH:
         _FRESH[key] = read(new_ds(cfg, temp), f)
     return _FRESH[key]
@@ -192,6 +204,7 @@ def _replay(job):
     import zlib
     case, variant = job
     TWOCHAN[0] = variant == "two"
+    PAIR13[0] = variant == "pair13"
     COMPUTED_AREA[0] = variant == "area"
     two = TWOCHAN[0]
     crc = zlib.crc32(repr((case["init"], case["h"], variant)).encode())
@@ -216,11 +229,11 @@ def _replay(job):
         state = st["state"]
         if st["a"] == "set":
             steps.append("set %s=%s" % (st["k"], st["v"]))
-            sec, key, conv = KEYMAP[st["k"]]
+            sec, key, conv = keymap(st["k"])
             ds.config[sec][key] = conv(st["v"])
         elif st["a"] == "del":
             steps.append("del %s" % st["k"])
-            sec, key, _ = KEYMAP[st["k"]]
+            sec, key, _ = keymap(st["k"])
             ds.config[sec].pop(key)
         else:
             steps.append("settemp %s" % st["ver"])
@@ -400,6 +413,8 @@ def main(tier, seed, replay=None):
     register_plugins()
     jobs = [(c, "plain") for c in cases]
     jobs += [(c, "two") for c in cases
+             if any(st.get("k", "").startswith("ct") for st in c["h"])]
+    jobs += [(c, "pair13") for c in cases
              if any(st.get("k", "").startswith("ct") for st in c["h"])]
     jobs += [(c, "area") for c in cases
              if any(st.get("k", "") in ("pixel", "framerate")
